@@ -41,7 +41,8 @@ pub fn grid() -> Vec<Point> {
         let n: i64 = v.parse().unwrap();
         add("health_check_port", v, (1..=65535).contains(&n));
     }
-    for v in ["on", "yes", "off", "no"] {
+    // (the switch is read without regard to letter case, by both sources)
+    for v in ["on", "yes", "off", "no", "ON", "Yes", "On", "YES", "OFF", "No"] {
         add("client_stats", v, true);
     }
     for v in ["127.0.0.1", "0.0.0.0", "10.1.2.3"] {
@@ -291,7 +292,7 @@ fn check(plan: &Plan, out: &RunOut) -> CheckOut {
                     }
                 }
                 "client_stats" => {
-                    let on = want == "on" || want == "yes";
+                    let on = want.eq_ignore_ascii_case("on") || want.eq_ignore_ascii_case("yes");
                     if let Some(l) = log_says_otherwise(&b, "Client req/resp tracking", if on { "per-client" } else { "aggregated" }) {
                         differs("start-up log", l);
                     }
